@@ -201,11 +201,11 @@ def real_nest(kind, sf, main, params):
     from loki.ir import FindNodes, Loop
     from loki.transformations import transform_loop as tl
     r = [x for x in sf.all_subroutines if x.name.lower() == main][0]
-    if kind in ('fusion', 'fusion-o'):
+    if kind in ('fusion', 'fusion-o', 'fusion-c'):
         tl.do_loop_fusion(r)
     elif kind in ('fission', 'fission-o'):
         tl.do_loop_fission(r, promote=True, warn_loop_carries=True)
-    elif kind == 'interchange':
+    elif kind in ('interchange', 'interchange-n'):
         tl.do_loop_interchange(r)
     elif kind == 'block':
         from loki.transformations.loop_blocking import split_loop
@@ -419,6 +419,91 @@ def gen_nest(rng, kind):
     return _nest_unit(rng, body, sym, ext), params
 
 
+# ---- deeper nests: interchange with an explicit order (all permutations, depth 2-4, pairwise different extents) and fusion with
+# collapse(n >= 2) and independently chosen variable names per nest and level
+
+_POOL = ('i1', 'i2', 'i3', 'i4', 'jk', 'jl')
+
+
+def _is_involution(p):
+    return all(p[p[i]] == i for i in range(len(p)))
+
+
+def gen_deep(rng, kind):
+    """program for kind in interchange-n | fusion-c"""
+    exts = [_V('n'), _V('m'), _I(2), _I(3), _I(4)]
+    decls = [[A('decl'), A(x), A('int'), A('in'), [], fir.NONE] for x in ('n', 'm', 'k1')]
+    decls.append([A('decl'), A('s1'), A('int'), A('inout'), [], fir.NONE])
+    args = [A('n'), A('m'), A('k1'), A('s1')]
+    between = lambda: [A('assign'), _V('s1'), [A('bin'), A('add'), _V('s1'), _V('k1')]]
+    body = [between()] if rng.random() < 0.5 else []
+
+    def stmt(arr, subs, vs, others=()):
+        lin = _V('k1')
+        for v in vs:
+            lin = [A('bin'), A('add'), lin, [A('bin'), A('mul'), _I(rng.randint(1, 9)), _V(v)]]
+        e = [A('bin'), A('add'), [A('bin'), A('mul'), [A('idx'), A(arr)] + subs, _I(rng.randint(2, 5))], lin]
+        for o in others:
+            e = [A('bin'), A('add'), e, [A('idx'), A(o)] + subs]
+        return [A('assign'), [A('idx'), A(arr)] + subs, [A('call'), A('mod'), e, _I(97)]]
+
+    def nest(vs, ranges, inner):
+        for v, (lo, hi) in reversed(list(zip(vs, ranges))):
+            inner = [[A('do'), A(v), lo, hi, fir.NONE, inner]]
+        return inner[0]
+
+    if kind == 'interchange-n':
+        d = rng.choice((2, 3, 3, 3, 4))
+        vs = rng.sample(_POOL, d)
+        ext = rng.sample(exts, d)                      # pairwise different extents
+        los = [_I(rng.choice((1, 1, 1, 2))) for _ in range(d)]
+        dimperm = list(range(d))
+        rng.shuffle(dimperm)                           # array dimension j is subscripted by the variable of level dimperm[j]
+        decls.append([A('decl'), A('c4'), A('int'), A('inout'), [[_I(1), ext[l]] for l in dimperm], fir.NONE])
+        args.append(A('c4'))
+        subs = [_V(vs[l]) for l in dimperm]
+        inner = [stmt('c4', subs, vs) for _ in range(rng.randint(1, 2))]
+        perms = [list(p) for p in __import__('itertools').permutations(range(d))]
+        cyc = [p for p in perms if not _is_involution(p)]
+        r = rng.random()
+        if d >= 3 and r < 0.7:
+            order = rng.choice(cyc)
+        elif r < 0.9 or d > 2:
+            order = rng.choice(perms)
+        else:
+            order = None                               # default: reversal of a 2-deep nest
+        if rng.random() < 0.3:
+            body.append(_pragma('omp simd'))
+        body.append(_pragma('loki loop-interchange' + ('' if order is None else ' (' + ', '.join(vs[i] for i in order) + ')')))
+        body.append(nest(vs, list(zip(los, ext)), inner))
+    elif kind == 'fusion-c':
+        c = rng.choice((2, 2, 3))
+        ext = rng.sample(exts, c)
+        ranges = [(_I(1), e) for e in ext]
+        arrays = ['b1', 'b2', 'b3']
+        for a in arrays:
+            decls.append([A('decl'), A(a), A('int'), A('inout'), [[_I(1), e] for e in reversed(ext)], fir.NONE])
+            args.append(A(a))
+        g = rng.choice((None, 'g1'))
+        for k in range(rng.randint(2, 3)):
+            vs = rng.sample(_POOL, c)                  # names chosen independently per nest and level
+            subs = [_V(v) for v in reversed(vs)]
+            inner = [stmt(rng.choice(arrays), subs, vs, others=[rng.choice(arrays)] if rng.random() < 0.6 else ())
+                     for _ in range(rng.randint(1, 2))]
+            words = [f'collapse({c})'] + ([f'group({g})'] if g else [])
+            rng.shuffle(words)
+            body.append(_pragma('loki loop-fusion ' + ' '.join(words)))
+            body.append(nest(vs, ranges, inner))
+            if rng.random() < 0.4:
+                body.append(between())
+    else:
+        raise ValueError(kind)
+    body.append(between())
+    for x in _POOL:
+        decls.append([A('decl'), A(x), A('int'), A('none'), [], fir.NONE])
+    return fir.canon([A('program'), A('kernel'), [A('unit'), A('kernel'), args, decls, body]])
+
+
 def top_groups(stmts):
     """(pragma texts directly in front, statement) pairs of a statement list (Lean: groups)"""
     out, pend = [], []
@@ -431,20 +516,46 @@ def top_groups(stmts):
     return out
 
 
+def pragma_param(key, text):
+    """Lean: pragmaParam — value of `key(value)` among the blank-separated words"""
+    for tok in text.split(' '):
+        if tok.startswith(key + '(') and tok.endswith(')'):
+            return tok[len(key) + 1:-1]
+    return None
+
+
+def nest_specs(depth, s):
+    """Lean: nestSpecs — [(var, lo, hi, step)] of a perfect nest of the given depth, else None"""
+    out = []
+    for d in range(depth):
+        if h(s) != 'do':
+            return None
+        out.append((str(s[1]), s[2], s[3], s[4]))
+        if d < depth - 1:
+            if len(s[5]) != 1:
+                return None
+            s = s[5][0]
+    return out if depth > 0 else None
+
+
 def fusion_simple(stmts):
     """Lean: fusionSimple"""
     fl = []
     for pr, s in top_groups(stmts):
         ts = [t for t in pr if t.startswith('loki loop-fusion')]
         if h(s) == 'do' and ts:
-            m = re.match(r'loki loop-fusion\s*group\((.*)\)$', ts[0].strip())
-            fl.append((m.group(1) if m else 'default', s))
-    for g, a in fl:
-        if str(a[4]) != 'none':
+            c = pragma_param('collapse', ts[0])
+            c = int(c) if c is not None and c.isdigit() else 1
+            fl.append((pragma_param('group', ts[0]) or 'default', c, nest_specs(c, s)))
+    for g, c, sp in fl:
+        if sp is None or any(str(x[3]) != 'none' for x in sp):
             return False
-        for g2, b in fl:
-            if g == g2 and (dumps(a[2]) != dumps(b[2]) or dumps(a[3]) != dumps(b[3])):
-                return False
+        for g2, c2, sp2 in fl:
+            if g == g2:
+                if c != c2 or sp2 is None:
+                    return False
+                if any(dumps(x[1]) != dumps(y[1]) or dumps(x[2]) != dumps(y[2]) for x, y in zip(sp, sp2)):
+                    return False
     return True
 
 
@@ -598,6 +709,13 @@ class C31(Prop):
                 inputs = fir.gen_inputs(rng, prog, n_in)
                 gf = tier == 'thorough' and j % 4 == 0
                 yield Case([A(kind), prog, inputs, A('gf' if gf else 'nogf')] + params, stream=kind)
+        n_deep = {'quick': 4, 'thorough': 30, 'search': 15}.get(tier, 4)
+        for kind in ('interchange-n', 'fusion-c'):
+            for j in range(n_deep):
+                prog = gen_deep(rng, kind)
+                inputs = fir.gen_inputs(rng, prog, n_in, max_extent=4)
+                gf = tier == 'thorough' and j % 5 == 0
+                yield Case([A(kind), prog, inputs, A('gf' if gf else 'nogf')], stream=kind)
 
     # ---- real code
     def impl(self, req):
@@ -609,7 +727,8 @@ class C31(Prop):
             return [A('result'), [], A('oracle-only')]
         if kind in ('fusion-o', 'fission-o'):
             return [A('result'), [A(c) for c in cs], A('oracle-only')]
-        if (kind == 'fusion' and not fusion_simple(main_body(prog))) or (kind == 'fission' and not fission_simple(main_body(prog))):
+        if (kind in ('fusion', 'fusion-c') and not fusion_simple(main_body(prog))) or \
+                (kind == 'fission' and not fission_simple(main_body(prog))):
             return [A('result'), [], A('excluded')]
         try:
             tp = real_apply(kind, prog, req_params(req))[0]
